@@ -488,15 +488,21 @@ class Normaliser:
         `[x for x in X]` is list(X)"""
         from .schema import _Arith
 
+        def mark(a):
+            b = _Arith().visit(copy.deepcopy(a))
+            if ast.dump(b) != ast.dump(a) or isinstance(a, (ast.BinOp, ast.UnaryOp)):
+                return ast.Call(func=ast.Name(id="_ar", ctx=ast.Load()), args=[b], keywords=[])
+            return a
+
         class T(ast.NodeTransformer):
             def visit_Call(self, n):
                 self.generic_visit(n)
                 if _src(n.func) == "range":
-                    n.args = [_Arith().visit(a) for a in n.args]
+                    n.args = [mark(a) for a in n.args]
                 if _src(n.func) == "enumerate":
                     for k in n.keywords:
                         if k.arg == "start":
-                            k.value = _Arith().visit(k.value)
+                            k.value = mark(k.value)
                     n.keywords = [k for k in n.keywords if not (k.arg == "start" and isinstance(k.value, ast.Constant) and k.value.value == 0)]
                 return n
 
@@ -506,7 +512,7 @@ class Normaliser:
                         and len(n.slice.args) == 1 and all(isinstance(x, ast.Constant) for x in n.value.elts):
                     return ast.IfExp(test=n.slice.args[0], body=n.value.elts[1], orelse=n.value.elts[0])
                 if not isinstance(n.slice, (ast.Slice, ast.Tuple)):
-                    n.slice = _Arith().visit(n.slice)
+                    n.slice = mark(n.slice)
                 return n
 
             def visit_ListComp(self, n):
@@ -1283,11 +1289,47 @@ def fnf(fnode, module_helpers=None):
     sig = ast.unparse(a)
     decos = ",".join(sorted(_src(d) for d in fnode.decorator_list))
     body = n.text()
-    order = []
-    for m in re.finditer(r"_L_(\w+?)_(?!\w)", body):
-        if m.group(0) not in order:
-            order.append(m.group(0))
-    ren = {k: "v%d" % i for i, k in enumerate(order)}
-    if ren:
-        body = re.sub("|".join(re.escape(k) + r"(?!\w)" for k in sorted(ren, key=len, reverse=True)), lambda m: ren[m.group(0)], body)
+    def renumber(text):
+        order = []
+        for m in re.finditer(r"_L_(\w+?)_(?!\w)|\bv\d+\b", text):
+            if m.group(0) not in order:
+                order.append(m.group(0))
+        ren = {k: "\x01%d" % i for i, k in enumerate(order)}
+        if ren:
+            text = re.sub("|".join((re.escape(k) + r"(?!\w)") if k.startswith("_L_") else (r"\b" + k + r"\b") for k in sorted(ren, key=len, reverse=True)),
+                          lambda m: ren[m.group(0)], text)
+        return text.replace("\x01", "v")
+
+    def resort(text):
+        """arithmetic regions `_ar(..)`: terms ordered by the current names"""
+        from .schema import _Arith
+        out, i = "", 0
+        while True:
+            j = text.find("_ar(", i)
+            if j < 0:
+                return out + text[i:]
+            depth, k = 0, j + 3
+            while k < len(text):
+                if text[k] == "(":
+                    depth += 1
+                elif text[k] == ")":
+                    depth -= 1
+                    if depth == 0:
+                        break
+                k += 1
+            inner = text[j + 4:k]
+            try:
+                e = _Arith().visit(ast.parse(resort(inner), mode="eval").body)
+                ast.fix_missing_locations(e)
+                inner2 = _src(e)
+            except Exception:
+                inner2 = inner
+            out += text[i:j] + "_ar(" + inner2 + ")"
+            i = k + 1
+    body = renumber(body)
+    for _ in range(3):
+        b2 = renumber(resort(body))
+        if b2 == body:
+            break
+        body = b2
     return "def (%s) [%s]\n%s" % (" ".join(sig.split()), decos, body)
